@@ -214,9 +214,10 @@ Variable BUF : nat.
 
 Definition is_rd_ok (r : rd_result) : bool := match r with RdOk => true | _ => false end.
 
-Definition read_line (pre : bytes) (k : cst) (ev : read_ev) (rest' : bytes) (nfd' : nat) : cst * bytes * bool :=
+(* hold = true: the requests completed by this read stay queued in the connection (no pop_parsed_request) *)
+Definition read_line (hold : bool) (pre : bytes) (k : cst) (ev : read_ev) (rest' : bytes) (nfd' : nat) : cst * bytes * bool :=
   let '(c1, res, sys) := try_read BUF (k_conn k) ev in
-  let '(c2, reqs) := drain (S (length (c_parsed c1))) c1 [] in
+  let '(c2, reqs) := drain (if hold then O else S (length (c_parsed c1))) c1 [] in
   (mkCst c2 rest' nfd',
    pre ++ B"rd=" ++ s_rd res ++ B" sys=" ++ bit sys ++ B" held=" ++ decn (length (c_files c2))
    ++ B" pend=" ++ bit (pending_write c2)
@@ -230,17 +231,17 @@ Definition write_line (pre : bytes) (k : cst) (ev : write_ev) : cst * bytes :=
    ++ B" pend=" ++ bit (pending_write c1)).
 
 (* Take n with nf descriptors: the stream hands over min(n, room, remaining) bytes *)
-Definition take_step (pre : bytes) (k : cst) (n nf : N) : cst * bytes * bool :=
+Definition take_step (hold : bool) (pre : bytes) (k : cst) (n nf : N) : cst * bytes * bool :=
   let c := k_conn k in
   let fds := seqn (k_nextfd k) (N.to_nat nf) in
   let nfd' := (k_nextfd k + N.to_nat nf)%nat in
-  if (BUF <=? length (c_win c))%nat then read_line pre k (REof []) (k_rest k) (k_nextfd k)
+  if (BUF <=? length (c_win c))%nat then read_line hold pre k (REof []) (k_rest k) (k_nextfd k)
   else
     let room := (BUF - length (c_win c))%nat in
     let kk := Nat.min (N.to_nat (N.min n (N.of_nat room))) (length (k_rest k)) in
     match kk with
-    | O => read_line pre k (REof fds) (k_rest k) nfd'
-    | _ => read_line pre k (RData (firstn kk (k_rest k)) fds) (skipn kk (k_rest k)) nfd'
+    | O => read_line hold pre k (REof fds) (k_rest k) nfd'
+    | _ => read_line hold pre k (RData (firstn kk (k_rest k)) fds) (skipn kk (k_rest k)) nfd'
     end.
 
 (* repeat Take n until the stream is exhausted or a read does not return Ok *)
@@ -251,7 +252,7 @@ Fixpoint drain_reads (fuel : nat) (pre : bytes) (k : cst) (n : N) : cst * list b
     match k_rest k with
     | [] => (k, [])
     | _ =>
-      let '(k', line, ok) := take_step pre k n 0 in
+      let '(k', line, ok) := take_step false pre k n 0 in
       if ok then let '(k'', ls) := drain_reads f pre k' n in (k'', line :: ls)
       else (k', [line])
     end
@@ -262,8 +263,9 @@ Definition run_conn_op (id : N) (i : nat) (k : cst) (op : arg) : cst * list byte
   let c := k_conn k in
   let one (x : cst * bytes) := (fst x, [snd x]) in
   match op with
-  | AL [AN 0; AN n; AN nf] => let '(k', line, _) := take_step pre k n nf in (k', [line])
-  | AL [AN 1; AN e] => let '(k', line, _) := read_line pre k (RFail (Z.of_N e)) (k_rest k) (k_nextfd k) in (k', [line])
+  | AL [AN 0; AN n; AN nf] => let '(k', line, _) := take_step false pre k n nf in (k', [line])
+  | AL [AN 13; AN n; AN nf] => let '(k', line, _) := take_step true pre k n nf in (k', [line])
+  | AL [AN 1; AN e] => let '(k', line, _) := read_line false pre k (RFail (Z.of_N e)) (k_rest k) (k_nextfd k) in (k', [line])
   | AL [AN 2; AN n] => drain_reads (S (length (k_rest k))) pre k n
   | AL [AN 3; AN n] =>
       (* the stream accepts min(n, len) bytes *)
